@@ -71,7 +71,9 @@ METHOD_SETS = {
     # the failing method listed FIRST, and one that has parameters
     "failing-param+greedy": ["verif-raise-param", "greedy"],
 }
-MINIMIZE = ["flops", "size", "write", "combo", "limit"]
+# parameterised objectives too: their factor travels as a string through
+# `get_dynamic_programming_minimize` into the reconfiguring stages
+MINIMIZE = ["flops", "size", "write", "combo", "limit", "combo-32", "limit-16"]
 POST = {
     "simulated_annealing_opts": dict(tsteps=2, numiter=2, seed=0),
     "slicing_opts": dict(target_slices=2, max_repeats=2, seed=0),
